@@ -3,7 +3,7 @@ system-level part, evidence."""
 import random
 
 import fnprop
-from common import BuildError, Report, TRUSTED_BASE, build_all, check_theorems
+from common import BuildError, Report, TRUSTED_BASE, build_all, check_theorems, coqchk
 
 
 def run_property(mod, tier, seed, replay=None):
@@ -29,6 +29,12 @@ def run_property(mod, tier, seed, replay=None):
         "checker_cmd": "cd /verif/coq && make -j16 && coqc -Q ... Props/%s.v  (full .vo build; Print Assumptions under every theorem)" % pid,
         "trusted_base": TRUSTED_BASE + list(getattr(mod, "EXTRA_TRUSTED", [])),
     }
+    if tier == "thorough" and not replay and failing is None:
+        clean, axioms, clog = coqchk(pid)
+        cov["coqchk"] = {"cmd": "coqchk -silent -o Verif.%s" % pid, "clean": clean, "axioms": axioms}
+        if not clean:
+            failing = failing or "coqchk"
+            tlog += "\n[coqchk] " + clog
     rep.fn_found = False
     rep.sys_found = False
     if has_fn:
